@@ -223,6 +223,14 @@ def decode_any_containers(fam, rng, rec):
         T = eval(shape, ns)
         fam.exec_src(f"@dataclass\nclass AnyHolder(DataClassDictMixin):\n    x: {shape}\n")
         decs = [("codec", BasicDecoder(T).decode, lambda d: d), ("field", fam.module.AnyHolder.from_dict, lambda d: {"x": d})]
+        # the same field behind a format mixin, fed with an already parsed document through the public decoder= keyword:
+        # the caller keeps that document, so its containers are not the new object's
+        ident = lambda d, **kw: d
+        for mix, meth in rng.sample([("DataClassMessagePackMixin", "from_msgpack"), ("DataClassORJSONMixin", "from_json"), ("DataClassTOMLMixin", "from_toml")], 2):
+            if meth == "from_toml" and "datetime.date" in shape:
+                continue     # TOML passes dates through: a date member of the union accepts (and returns) any object, by design
+            fam.exec_src(f"@dataclass\nclass AnyHolder_{meth}({mix}):\n    x: {shape}\n")
+            decs.append((meth + "(decoder=identity)", (lambda d, m=getattr(getattr(fam.module, f"AnyHolder_{meth}"), meth): m(d, decoder=ident)), lambda d: {"x": d}))
     except Exception as e:
         rec.count("any_container_build_failed")
         return
@@ -248,6 +256,46 @@ def decode_any_containers(fam, rng, rec):
             rec.nontrivial(("any-container", shape, rname))
 
 
+def inherited_pass_through(fam, rng, rec):
+    """a field option that waives the copy (pass_through) belongs to the declaration that carries it: a middle class that
+    re-declares the member plainly makes it typed data again, for itself and for every class below that inherits it."""
+    from mashumaro.codecs.basic import BasicDecoder, BasicEncoder
+    ann, mk = rng.choice([("List[int]", lambda: [1, 2]), ("Dict[str, List[int]]", lambda: {"k": [1]}), ("List[List[str]]", lambda: [["a"]])])
+    opt = rng.choice(["serialization_strategy=pass_through", "serialize=pass_through, deserialize=pass_through"])
+    mixin = rng.random() < 0.6
+    lazy = "    class Config(BaseConfig):\n        lazy_compilation = True\n" if rng.random() < 0.3 else ""
+    src = (f"@dataclass\nclass G0{'(DataClassDictMixin)' if mixin else ''}:\n    x: {ann} = field(default_factory=list, metadata=field_options({opt}))\n    n: int = 0\n{lazy}"
+           f"@dataclass\nclass G1(G0):\n    x: {ann} = field(default_factory={'dict' if ann.startswith('Dict') else 'list'})\n"
+           f"@dataclass\nclass G2(G1):\n    m: int = 1\n" + (f"@dataclass\nclass G3(G2):\n    k: int = 2\n" if rng.random() < 0.5 else ""))
+    try:
+        fam.exec_src(src)
+    except Exception as e:
+        rec.violation(f"inherited-pass-through:build:{type(e).__name__}", {"source": src, "error": str(e)[:200]}, {"scenario": "inherited-pass-through"})
+        return
+    for cname, typed in (("G0", False), ("G1", True), ("G2", True), ("G3", True)):
+        cls = getattr(fam.module, cname, None)
+        if cls is None:
+            continue
+        v = cls(x=mk())
+        enc = (lambda o: o.to_dict()) if mixin else BasicEncoder(cls).encode
+        dec = cls.from_dict if mixin else BasicDecoder(cls).decode
+        for direction, fn, arg in (("encode", enc, v), ("decode", dec, {"x": mk(), "n": 1})):
+            rec.evaluation()
+            a = containers(arg)
+            try:
+                out = fn(arg)
+            except Exception as e:
+                rec.violation(f"inherited-pass-through:{direction}:{type(e).__name__}", {"source": src, "class": cname, "error": str(e)[:200]}, {"scenario": "inherited-pass-through"})
+                continue
+            shared = set(a) & set(containers(out))
+            if bool(shared) == (not typed):
+                rec.count("inherited_pass_through_agree")
+                rec.nontrivial(("inherited-pass-through", ann, opt, cname, direction, mixin))
+            else:
+                rec.violation(f"inherited-pass-through:{direction}:{'extra-sharing' if shared else 'missing-sharing'}",
+                              {"source": src, "class": cname, "shared": [type(a[k]).__name__ for k in shared]}, {"scenario": "inherited-pass-through", "class": cname})
+
+
 def run_case(seed, tier, rec, st):
     from mashumaro.codecs.basic import BasicDecoder, BasicEncoder
     rng = random.Random(seed)
@@ -255,6 +303,9 @@ def run_case(seed, tier, rec, st):
     try:
         if rng.random() < 0.08:
             decode_any_containers(fam, rng, rec)
+            return
+        if rng.random() < 0.04:
+            inherited_pass_through(fam, rng, rec)
             return
         fmt = rng.choice([None, "orjson", "msgpack", "toml"])
         base = {None: "DataClassDictMixin", "orjson": "DataClassORJSONMixin", "msgpack": "DataClassMessagePackMixin", "toml": "DataClassTOMLMixin"}[fmt]
@@ -372,6 +423,31 @@ def run_case(seed, tier, rec, st):
                 rec.violation("decode:result-shares-container-with-input", {"type": tast.render(t), "input": common.short(doc), "shared": [type(b[k]).__name__ for k in sh]}, {})
             else:
                 rec.count("decode_no_share")
+            # the wrapper class: from_dict, and the format method fed with a pre-parsed document (decoder=identity)
+            import copy
+            wroutes = [("W.from_dict", lambda: {"x": copy.deepcopy(doc)}, W.from_dict)]
+            if meth:
+                fmeth = getattr(W, {"to_jsonb": "from_json", "to_msgpack": "from_msgpack", "to_toml": "from_toml"}[meth])
+                wroutes.append((fmeth.__name__ + "(decoder=identity)", lambda: copy.deepcopy(getattr(w, meth)(encoder=ident)), lambda d: fmeth(d, decoder=ident)))
+            for rname, mkdoc, fn in wroutes:
+                try:
+                    wdoc = mkdoc()
+                    wb = containers(wdoc)
+                    wsnap = fingerprint(wdoc)
+                    wr = fn(wdoc)
+                except Exception:
+                    rec.count("decode_raised")
+                    continue
+                rec.evaluation()
+                if fingerprint(wdoc) != wsnap:
+                    rec.violation("decode:input-mutated", {"type": tast.render(t), "route": rname, "input": common.short(wdoc)}, {})
+                wsh = set(wb) & set(containers(wr))
+                if wsh:
+                    rec.violation("decode:result-shares-container-with-input", {"type": tast.render(t), "route": rname, "input": common.short(wdoc),
+                                  "shared": [type(wb[k]).__name__ for k in wsh], "family": fam.to_json()}, {"route": rname})
+                else:
+                    rec.count("decode_no_share")
+                    rec.count("decode_no_share_wrapper_routes")
             if j == 0:
                 rec.sample({"type": tast.render(t), "no_copy": N, "value": common.short(v, 120), "format": fmt, "call_order": order})
     finally:
